@@ -4,6 +4,7 @@ import (
 	"bytes"
 	"fmt"
 	"regexp"
+	"slices"
 	"strings"
 
 	"mvdan.cc/sh/v3/expand"
@@ -69,14 +70,22 @@ func c16(c *vc.Ctx) {
 		"{0..0}", "{-0..0}", "{1.1..2}", "{1..2.2}", "{..}", "{1..}", "{..1}", "{1...3}", "{1..2..}", "{1..2..3..4}",
 		"é{a,b}", "{é,a}", "{é..z}",
 	}
-	c.Rule = fmt.Sprintf("all words of <=%d characters over %q (excluding words ending in an unescaped backslash) plus %d hand-listed range/limit edge words; each is parsed as one literal word; SplitBraces must keep the printed form and return true iff a BraceExp results; expand.Fields (globbing off) must equal bash 5.2 `printf '<%%s>' word`; distinct = distinct expansion results", maxLen, alphabet, len(edge))
-	c.Assumptions = []string{"bash 5.2.15 is the oracle for brace expansion; an error from expand.Fields is accepted only when bash produces more than 16384 words"}
+	comp := c16Composite(vc.Pick(c, 3, 4), vc.Pick(c, false, true))
+	c.Rule = fmt.Sprintf("(a) all words of <=%d characters over %q (excluding words ending in an unescaped backslash), (b) %d hand-listed range/limit edge words, (c) composite words prefix+group+suffix longer than %d characters: %s; each is parsed as one literal word; SplitBraces must keep the printed form and return true iff a BraceExp results; expand.Fields (globbing off) must equal bash 5.2 `printf '<%%s>' word`; for every word with a brace expansion the word list is also taken three times from the API - BracesSeq printed word by word while iterating, BracesSeq collected into a slice and printed afterwards, expand.Braces - and the three lists must be equal, agree with Fields on the element-limit error, and after backslash removal and dropping empty words equal the Fields list (hence bash's); distinct = distinct expansion results", maxLen, alphabet, len(edge), maxLen, comp.desc)
+	c.Assumptions = []string{"bash 5.2.15 is the oracle for brace expansion; an error from expand.Fields is accepted only when bash produces more than 16384 words",
+		"the words yielded by BracesSeq/Braces are compared through their text (concatenated literal parts), at yield time and after the whole list has been kept; sharing of parts between words is allowed as long as no kept word changes"}
 	c.Reruns = 1
 	cfg := func() *expand.Config { return &expand.Config{Env: expand.ListEnviron()} }
 	complete := vc.RunBatch(c, 4000, func(emit func(wordCase)) {
 		for _, e := range edge {
 			emit(wordCase{e})
 		}
+		comp.each(func(s string) {
+			if len(s) <= maxLen {
+				return // already enumerated below (the token alphabet is a subset of the character alphabet)
+			}
+			emit(wordCase{s})
+		})
 		enum.Strings(alphabet, maxLen, func(s string) {
 			if s == "" {
 				return
@@ -125,6 +134,12 @@ func c16(c *vc.Ctx) {
 				fails[i] = f
 				continue
 			}
+			if found {
+				if f := c16Collected(c, key, t.W, w2, fields, err); f != nil {
+					fails[i] = f
+					continue
+				}
+			}
 			want := "0:"
 			if err != nil {
 				shErr[len(cases)] = true
@@ -150,7 +165,7 @@ func c16(c *vc.Ctx) {
 		for _, d := range diffs {
 			i := idx[d.Index]
 			t := batch[i]
-			fails[i] = &vc.Fail{Class: c16Class(t.W, cases[d.Index].Want), Key: fmt.Sprintf("%q fields", t.W), Msg: fmt.Sprintf("brace expansion of %q: sh %s, bash %s", t.W, cases[d.Index].Want, d.Got)}
+			fails[i] = &vc.Fail{Class: c16Class(t.W, cases[d.Index].Want, d.Got), Key: fmt.Sprintf("%q fields", t.W), Msg: fmt.Sprintf("brace expansion of %q: sh %s, bash %s", t.W, cases[d.Index].Want, d.Got)}
 		}
 		return fails
 	})
@@ -162,8 +177,22 @@ var (
 	c16CharRangeRx = regexp.MustCompile(`\{([A-Za-z])\.\.([A-Za-z])(\.\.-?[0-9]+)?\}`)
 )
 
-// c16Class names the two narrow families recorded as known findings.
-func c16Class(w, shWant string) string {
+// c16Class names the narrow families recorded as known findings.
+func c16Class(w, shWant, bashGot string) string {
+	if model, q := c16BashModel(w); !q.giveUp && model == bashGot {
+		// real bash printed exactly what the transliteration of its braces.c
+		// predicts, and the prediction went through one of the two places
+		// where that scanner is not a recursive-descent reading of the word
+		if q.rescan {
+			return "close-brace-after-commaless-group"
+		}
+		if q.flat {
+			return "dotdot-braces-around-nested-group"
+		}
+		if q.opaque {
+			return "dotdot-braces-around-nested-sequence"
+		}
+	}
 	if c16ReopenRx.MatchString(w) && shWant == "0:<"+unescapePattern(w)+">" {
 		// bash keeps looking for a later "}" after a group without a comma,
 		// e.g. {a},} gives "a}"; sh leaves the word literal
@@ -181,4 +210,148 @@ func c16Class(w, shWant string) string {
 		}
 	}
 	return ""
+}
+
+// c16Comp is the compositional word generator: every word is
+// prefix + group + suffix, where prefix and suffix are token sequences and
+// group is a complete brace group. It reaches what plain strings of <=6/7
+// characters cannot: many word parts to the left of, between and to the right
+// of brace expansions (a literalised "{a}" is three parts, an unclosed "{a,"
+// three, "{}" two), i.e. every size 0..12 of the part list that bracesSeqRec
+// carries in front of an expansion, at top level and inside the recursion.
+type c16Comp struct {
+	prefixes, groups, suffixes []string
+	desc                       string
+}
+
+func c16Composite(maxPrefixTokens int, nested bool) *c16Comp {
+	uniqSeqs := func(tokens []string, maxLen int) []string {
+		seen := map[string]bool{}
+		var out []string
+		enum.Seqs(tokens, maxLen, func(seq []string) {
+			s := strings.Join(seq, "")
+			if !seen[s] {
+				seen[s] = true
+				out = append(out, s)
+			}
+		})
+		return out
+	}
+	prefixTokens := []string{"a", "{a}", "{}", "{", "}", ",", "..", `\{`}
+	suffixTokens := []string{"a", "{a}", "}", "{0,1}"}
+	alts := []string{"", "a", "b"}
+	if nested {
+		alts = append(alts, "{a,b}")
+	}
+	cp := &c16Comp{prefixes: uniqSeqs(prefixTokens, maxPrefixTokens), suffixes: uniqSeqs(suffixTokens, 2)}
+	for n := 2; n <= 3; n++ {
+		var rec func(cur []string)
+		rec = func(cur []string) {
+			if len(cur) == n {
+				cp.groups = append(cp.groups, "{"+strings.Join(cur, ",")+"}")
+				return
+			}
+			for _, a := range alts {
+				rec(append(cur[:len(cur):len(cur)], a))
+			}
+		}
+		rec(nil)
+	}
+	seqGroups := []string{"{0..1}", "{a..b}", "{9..0..9}"}
+	cp.groups = append(cp.groups, seqGroups...)
+	cp.desc = fmt.Sprintf("prefix = every sequence of <=%d tokens over %q (%d distinct strings), group = {x,y} and {x,y,z} with every alternative in %q plus %q (%d groups), suffix = every sequence of <=2 tokens over %q (%d distinct strings)",
+		maxPrefixTokens, prefixTokens, len(cp.prefixes), alts, seqGroups, len(cp.groups), suffixTokens, len(cp.suffixes))
+	return cp
+}
+
+func (cp *c16Comp) each(f func(string)) {
+	for _, p := range cp.prefixes {
+		for _, g := range cp.groups {
+			for _, s := range cp.suffixes {
+				f(p + g + s)
+			}
+		}
+	}
+}
+
+// c16WordText is the text of a word produced by brace expansion: its literal
+// parts concatenated (any other part kind is printed).
+func c16WordText(w *syntax.Word) string {
+	if w == nil {
+		return "<nil>"
+	}
+	var sb strings.Builder
+	for _, wp := range w.Parts {
+		if lit, ok := wp.(*syntax.Lit); ok {
+			sb.WriteString(lit.Value)
+		} else {
+			sb.WriteString(printNode(wp))
+		}
+	}
+	return sb.String()
+}
+
+func c16Join(l []string) string { return "<" + strings.Join(l, "><") + ">" }
+
+// c16Collected is the clause for callers that KEEP the words of a brace
+// expansion: the list obtained by collecting BracesSeq, and the list returned
+// by Braces, must be the list seen while iterating, and that list (after quote
+// removal, without empty words) must be what Fields returned.
+func c16Collected(c *vc.Ctx, key, src string, w *syntax.Word, fields []string, fieldsErr error) *vc.Fail {
+	var iterTexts, collTexts, bracesTexts, lits []string
+	var iterErr, collErr error
+	var coll, all []*syntax.Word
+	if f := guard(key+" collect", func() {
+		for x, err := range expand.BracesSeq(nil, w) {
+			if err != nil {
+				iterErr = err
+				break
+			}
+			iterTexts = append(iterTexts, c16WordText(x))
+		}
+		for x, err := range expand.BracesSeq(nil, w) {
+			if err != nil {
+				collErr = err
+				break
+			}
+			coll = append(coll, x)
+		}
+		for _, x := range coll {
+			collTexts = append(collTexts, c16WordText(x))
+		}
+		if iterErr == nil {
+			// Braces has no element limit; only asked when the list is known to be small
+			all = expand.Braces(w)
+			for _, x := range all {
+				bracesTexts = append(bracesTexts, c16WordText(x))
+			}
+		}
+	}); f != nil {
+		return f
+	}
+	c.Count("words_with_expansion_collected", 1)
+	if (iterErr != nil) != (fieldsErr != nil) || (collErr != nil) != (fieldsErr != nil) {
+		return vc.Failf(key+" collect-err", "brace expansion of %q: Fields error %v, BracesSeq error %v (second iteration %v)", src, fieldsErr, iterErr, collErr)
+	}
+	if !slices.Equal(iterTexts, collTexts) {
+		return vc.Failf(key+" collect-seq", "brace expansion of %q: BracesSeq yields %s one at a time, but the same words collected into a slice read %s", src, c16Join(iterTexts), c16Join(collTexts))
+	}
+	if iterErr != nil {
+		c.Count("braces_not_called_over_limit", 1)
+		return nil
+	}
+	if !slices.Equal(iterTexts, bracesTexts) {
+		return vc.Failf(key+" collect-braces", "brace expansion of %q: BracesSeq yields %s one at a time, expand.Braces returns %s", src, c16Join(iterTexts), c16Join(bracesTexts))
+	}
+	// quote removal and removal of empty words, as Fields (and bash) do after
+	// brace expansion; the words hold only literal characters and backslashes
+	for _, t := range bracesTexts {
+		if u := unescapePattern(t); u != "" {
+			lits = append(lits, u)
+		}
+	}
+	if !slices.Equal(lits, fields) {
+		return vc.Failf(key+" collect-fields", "brace expansion of %q: the words returned by expand.Braces are, after quote removal and without empty words, %s; Fields gives %s", src, c16Join(lits), c16Join(fields))
+	}
+	return nil
 }
